@@ -590,6 +590,10 @@ def check_C11(A: Analysis, tier):
                         if b.cls in ("META_UNHASHED", "PIDREFS_UNHASHED") or (b.cls == "UNKNOWN" and ev.kind in MUT and i == (1 if ev.kind == "RENAME" else 0) and c.cls != "MARKER"):
                             ra.ob()
                             ra.fail(site_func(ev), site_text(ev), f"metadata path is not derived as metadata/shard(H(pid))/...: {c!r}", site_loc(A, ev))
+                        is_dest = ev.kind in ("CREATE", "MKDIR") and i == 0 or ev.kind == "RENAME" and i == 1
+                        if is_dest and c in primary(cs) and b.cls in ("FALLBACK", "RAWID", "RELATIVE", "BOGUS"):
+                            ra.ob()
+                            ra.fail(site_func(ev), site_text(ev), f"metadata is written to {c!r}, which is not metadata/shard(H(pid))/H(pid+format)", site_loc(A, ev))
                         if b.cls in ("META", "METADIR"):
                             ra.ob()
                             ra.inst(f"{site_func(ev)}: `{site_text(ev)[:50]}` {b.cls}")
